@@ -133,7 +133,7 @@ def gen_range_consts():
     if path.exists() and path.read_text() == text:
         return False
     path.parent.mkdir(parents=True, exist_ok=True)
-    path.write_text(text)
+    vlib.atomic_write(path, text)
     return True
 
 
